@@ -388,6 +388,25 @@ impl RefGraph {
         seen.len() == self.present.len()
     }
 
+    /// The vertices reached from `root` if that part of the graph is a tree of present vertices.
+    pub fn tree_from(&self, root: usize) -> Option<BTreeSet<usize>> {
+        if !self.is_present(root) {
+            return None;
+        }
+        let mut seen = BTreeSet::new();
+        let mut todo = vec![root];
+        seen.insert(root);
+        while let Some(x) = todo.pop() {
+            for (_, t) in &self.present[&x].edges {
+                if !self.is_present(*t) || !seen.insert(*t) {
+                    return None;
+                }
+                todo.push(*t);
+            }
+        }
+        Some(seen)
+    }
+
     /// The root of the tree this graph is, if it is one.
     pub fn tree_root(&self) -> Option<usize> {
         let mut has_parent = BTreeSet::new();
